@@ -115,7 +115,7 @@ func TestC19Hierarchical(t *testing.T) {
 			if rapid.IntRange(0, 6).Draw(t, "fault") == 0 {
 				faultAt = rapid.IntRange(0, 3).Draw(t, "faultat")
 				faultCode = rapid.SampledFrom(faultCodes).Draw(t, "faultcode")
-				setFault(faulty, seen, faultAt, faultCode)
+				setFault(faulty, seen, faultAt, faultCode, drawBurst(t))
 			}
 			c.Add(kind, faultAt, int(faultCode))
 			log.Reset()
